@@ -534,8 +534,12 @@ Qed.
 Definition fn_le (x y : fn_counts) : Prop :=
   fc_blocks x <= fc_blocks y /\ fc_ops x <= fc_ops y /\ fc_locals x <= fc_locals y.
 
+(* [c'] measures at least as much as [c]: every function of [c] has a counterpart in [c']
+   that is at least as large (same FunctionId), [c'] may have further functions, and every
+   table is at least as long *)
 Definition counts_le (c c' : counts) : Prop :=
-  Forall2 fn_le (per_fn c) (per_fn c') /\
+  (exists pf'' extra,
+     per_fn c' = pf'' ++ extra /\ Forall2 fn_le (per_fn c) pf'' /\ Forall fn_nonneg extra) /\
   n_locals c <= n_locals c' /\ n_scopes c <= n_scopes c' /\ n_statements c <= n_statements c' /\
   n_calls c <= n_calls c' /\ total_ops c <= total_ops c' /\ total_blocks c <= total_blocks c'.
 
@@ -579,21 +583,57 @@ Lemma forall2_weaken (A B : Type) (R R' : A -> B -> Prop) l l' :
   (forall x y, R x y -> R' x y) -> Forall2 R l l' -> Forall2 R' l l'.
 Proof. intros H. induction 1; constructor; auto. Qed.
 
+Lemma fn_events_range x : fn_nonneg x -> 0 <= fn_events x <= u64_max.
+Proof.
+  intros (Hb & Ho & Hl). unfold fn_events. apply sat_mul_range; [|assumption].
+  apply sat_add_range; [apply sat_mul_range; lia|assumption].
+Qed.
+
+Lemma liveness_fold_extra extra : Forall fn_nonneg extra -> forall a, 0 <= a <= u64_max ->
+  a <= fold_left (fun events x => sat_add events (fn_events x)) extra a.
+Proof.
+  induction 1 as [|x r Hx _ IH]; intros a Ha; cbn [fold_left]; [lia|].
+  pose proof (fn_events_range x Hx) as Hr.
+  assert (Hs : a <= sat_add a (fn_events x) <= u64_max) by (unfold sat_add; lia).
+  specialize (IH (sat_add a (fn_events x))). lia.
+Qed.
+
+Lemma liveness_fold_range pf : Forall fn_nonneg pf -> forall a, 0 <= a <= u64_max ->
+  0 <= fold_left (fun events x => sat_add events (fn_events x)) pf a <= u64_max.
+Proof.
+  induction 1 as [|x r Hx _ IH]; intros a Ha; cbn [fold_left]; [lia|].
+  apply IH. pose proof (fn_events_range x Hx). unfold sat_add. lia.
+Qed.
+
+Lemma max_of_app_ge (f : fn_counts -> Z) pf extra o :
+  max_of f pf = Some o -> exists o', max_of f (pf ++ extra) = Some o' /\ o <= o'.
+Proof.
+  intros H. destruct (max_of f (pf ++ extra)) as [v|] eqn:E.
+  - exists v. split; [reflexivity|]. apply max_of_spec in H. apply max_of_spec in E.
+    destruct H as ((x & Hx & Ex) & _). destruct E as (_ & Hall). rewrite <- Ex. apply Hall.
+    apply in_or_app. left. exact Hx.
+  - apply max_of_none in E. destruct pf; [discriminate|discriminate].
+Qed.
+
 Lemma observed_mono c c' m o :
   counts_wf c -> n_locals c' * 2 + 2 <= u64_max -> counts_le c c' ->
   observed c m = Some o -> exists o', observed c' m = Some o' /\ o <= o'.
 Proof.
-  intros Hc Hb' (Hpf & HL & HS & HN & HC & HO & HB) Ho.
+  intros Hc Hb' ((pf'' & extra & Epf & Hpf & Hex) & HL & HS & HN & HC & HO & HB) Ho.
   destruct Hc as (Hwf & HL0 & _).
-  assert (Hlen : n_functions c = n_functions c').
-  { unfold n_functions. rewrite (forall2_same_length _ _ _ _ _ Hpf). reflexivity. }
+  assert (Hlen : n_functions c <= n_functions c').
+  { unfold n_functions. rewrite Epf, app_length, (forall2_same_length _ _ _ _ _ Hpf). lia. }
   assert (Hnn : Forall fn_nonneg (per_fn c)) by (eapply Forall_impl; [|exact Hwf]; apply fn_wf_nonneg).
   destruct m; cbn [observed] in *;
     try (inversion Ho; subst o; eexists; split; [reflexivity|]; lia).
-  - eapply max_of_mono; [|exact Ho]. eapply forall2_weaken; [|exact Hpf]. intros x y H. apply H.
-  - eapply max_of_mono; [|exact Ho]. eapply forall2_weaken; [|exact Hpf]. intros x y H. apply H.
+  - rewrite Epf. destruct (max_of_mono fc_ops (per_fn c) pf'' o) as (o1 & Ho1 & Hle1); [|exact Ho|].
+    { eapply forall2_weaken; [|exact Hpf]. intros x y H. apply H. }
+    destruct (max_of_app_ge fc_ops pf'' extra o1 Ho1) as (o2 & Ho2 & Hle2). exists o2. split; [exact Ho2|lia].
+  - rewrite Epf. destruct (max_of_mono fc_blocks (per_fn c) pf'' o) as (o1 & Ho1 & Hle1); [|exact Ho|].
+    { eapply forall2_weaken; [|exact Hpf]. intros x y H. apply H. }
+    destruct (max_of_app_ge fc_blocks pf'' extra o1 Ho1) as (o2 & Ho2 & Hle2). exists o2. split; [exact Ho2|lia].
   - inversion Ho; subst o. eexists. split; [reflexivity|].
-    rewrite <- Hlen. unfold summary_event_bound.
+    unfold summary_event_bound.
     assert (Hf : 0 <= n_functions c) by (unfold n_functions; lia).
     destruct (summary_add_no_overflow (n_locals c)) as [_ ->]; [lia|lia|].
     destruct (summary_add_no_overflow (n_locals c')) as [_ ->]; [lia|lia|].
@@ -601,9 +641,16 @@ Proof.
     + apply sat_add_range; lia.
     + apply sat_add_mono; lia.
   - inversion Ho; subst o. eexists. split; [reflexivity|].
-    unfold liveness_event_bound. apply liveness_bound_mono; [assumption|assumption|lia].
+    unfold liveness_event_bound. rewrite Epf, fold_left_app.
+    eapply Z.le_trans; [apply (liveness_bound_mono (per_fn c) pf'' Hnn Hpf 0 0); lia|].
+    apply liveness_fold_extra; [exact Hex|].
+    apply liveness_fold_range; [|unfold u64_max; lia].
+    clear - Hnn Hpf. induction Hpf as [|x y l l' Hxy _ IH]; constructor.
+    + inversion Hnn; subst. destruct H1 as (? & ? & ?). destruct Hxy as (? & ? & ?). unfold fn_nonneg. lia.
+    + inversion Hnn; subst. apply IH. assumption.
 Qed.
 
+(* a smaller program passes every limit a larger one passes ... *)
 Lemma limits_monotone_lemma c c' k :
   counts_wf c -> n_locals c' * 2 + 2 <= u64_max -> counts_le c c' ->
   first_exceeded_limit c' k = None -> first_exceeded_limit c k = None.
@@ -611,6 +658,28 @@ Proof.
   intros Hc Hb Hle H. rewrite no_limit_all_within in *. intros m o Ho.
   destruct (observed_mono c c' m o Hc Hb Hle Ho) as (o' & Ho' & Hoo').
   specialize (H m o' Ho'). lia.
+Qed.
+
+(* ... and every stage that trips for the smaller program trips for the larger one, so the
+   larger program is over some limit too (possibly an earlier one) *)
+Lemma trips_monotone_lemma c c' k m :
+  counts_wf c -> n_locals c' * 2 + 2 <= u64_max -> counts_le c c' ->
+  trips c k m = true -> trips c' k m = true.
+Proof.
+  intros Hc Hb Hle H. apply trips_iff in H. destruct H as (o & Ho & Hlt).
+  destruct (observed_mono c c' m o Hc Hb Hle Ho) as (o' & Ho' & Hoo').
+  apply trips_iff. exists o'. split; [exact Ho'|lia].
+Qed.
+
+Lemma over_limit_monotone_lemma c c' k l :
+  counts_wf c -> n_locals c' * 2 + 2 <= u64_max -> counts_le c c' ->
+  first_exceeded_limit c k = Some l ->
+  exists l', first_exceeded_limit c' k = Some l' /\ metric_index (l_metric l') <= metric_index (l_metric l).
+Proof.
+  intros Hc Hb Hle H. apply first_limit_order_lemma in H. destruct H as (Ht & _).
+  pose proof (trips_monotone_lemma c c' k _ Hc Hb Hle Ht) as Ht'.
+  destruct (proj2 (some_limit_iff_trips c' k)) as (l' & Hl'); [exists (l_metric l); exact Ht'|].
+  exists l'. split; [exact Hl'|]. eapply reported_is_minimal; eassumption.
 Qed.
 
 (* ------------------------------------------------------------------------------------ *)
@@ -833,3 +902,291 @@ Section RuntimeSkeletonFacts.
     - intros a x. destruct (fn_id x); reflexivity.
   Qed.
 End RuntimeSkeletonFacts.
+
+(* ------------------------------------------------------------------------------------ *)
+(** * The default configuration *)
+
+Lemma caps_wfb_sound k : caps_wfb k = true -> caps_wf k.
+Proof.
+  unfold caps_wfb, caps_wf. rewrite forallb_forall. intros H f.
+  assert (Hin : In f all_cap_fields) by (destruct f; cbn; tauto).
+  specialize (H f Hin). apply andb_prop in H. destruct H as [H1 H2].
+  apply Z.leb_le in H1. apply Z.leb_le in H2. lia.
+Qed.
+
+(* every DEFAULT_CAPS value is a value of its Rust type *)
+Lemma default_caps_wf : caps_wf default_caps.
+Proof. apply caps_wfb_sound. vm_compute. reflexivity. Qed.
+
+(* ------------------------------------------------------------------------------------ *)
+(** * The summary budget cannot run out once the preflight has passed *)
+
+Lemma note_events_enough n : forall remaining,
+  Z.of_nat n <= remaining -> note_events n remaining = Some (remaining - Z.of_nat n).
+Proof.
+  induction n as [|n IH]; intros r Hr; cbn [note_events].
+  - f_equal. lia.
+  - unfold note_event. destruct (Z.eqb_spec r 0) as [E|_]; [lia|].
+    rewrite IH by lia. f_equal. lia.
+Qed.
+
+Lemma note_events_short n : forall remaining,
+  0 <= remaining < Z.of_nat n -> note_events n remaining = None.
+Proof.
+  induction n as [|n IH]; intros r Hr; cbn [note_events]; [lia|].
+  unfold note_event. destruct (Z.eqb_spec r 0) as [E|Hn]; [reflexivity|].
+  apply IH. lia.
+Qed.
+
+(* summary.rs spends at most one event per (function, callee | captured local | class step):
+   at most summary_exact F L events in all.  If the preflight passed, a budget of
+   max_summary_events covers any such number of events. *)
+Lemma summary_budget_suffices_lemma c k n :
+  caps_wf k -> counts_wf c -> max_summary_events k < u64_max ->
+  first_exceeded_limit c k = None ->
+  Z.of_nat n <= summary_exact (n_functions c) (n_locals c) ->
+  note_events n (max_summary_events k) = Some (max_summary_events k - Z.of_nat n).
+Proof.
+  intros Hk Hc Hcap H Hn. rewrite no_limit_iff in H.
+  pose proof (H MLocals) as HtL. pose proof (H MSummary) as HtS.
+  destruct (derived_verdicts_exact c k Hk Hc HtL) as [HS _]. rewrite (HS Hcap) in HtS.
+  apply exceeds_false_iff in HtS. apply note_events_enough. lia.
+Qed.
+
+(* ------------------------------------------------------------------------------------ *)
+(** * No saturation at all for programs that reach the derived stages under sane caps *)
+
+Lemma sum_of_fold_shift (f : fn_counts -> Z) pf : forall a,
+  fold_left (fun a x => a + f x) pf a = a + fold_left (fun a x => a + f x) pf 0.
+Proof.
+  induction pf as [|x r IH]; intros a; cbn [fold_left]; [lia|].
+  rewrite IH. rewrite (IH (0 + f x)). lia.
+Qed.
+
+Lemma sum_of_cons (f : fn_counts -> Z) x pf : sum_of f (x :: pf) = f x + sum_of f pf.
+Proof. unfold sum_of. cbn [fold_left]. rewrite sum_of_fold_shift. lia. Qed.
+
+(* exact liveness events are bounded by (2 * total blocks + total ops) * largest local count *)
+Lemma liveness_exact_le pf lmax : Forall fn_nonneg pf ->
+  Forall (fun x => fc_locals x <= lmax) pf ->
+  liveness_exact pf <= (sum_of fc_blocks pf * 2 + sum_of fc_ops pf) * lmax.
+Proof.
+  intros Hnn Hl. induction pf as [|x r IH].
+  - cbn. lia.
+  - inversion Hnn as [|? ? (Hb & Ho & Hl0) Hnn']; subst. inversion Hl as [|? ? Hlx Hl']; subst.
+    rewrite liveness_exact_cons, !sum_of_cons. specialize (IH Hnn' Hl').
+    unfold fn_events_exact.
+    assert (Hsb : 0 <= sum_of fc_blocks r).
+    { assert (Hf : Forall (fun x => 0 <= fc_blocks x) r)
+        by (eapply Forall_impl; [|exact Hnn']; intros y Hy; apply Hy).
+      exact (proj1 (sum_of_fold_ge fc_blocks r Hf 0)). }
+    assert (Hso : 0 <= sum_of fc_ops r).
+    { assert (Hf : Forall (fun x => 0 <= fc_ops x) r)
+        by (eapply Forall_impl; [|exact Hnn']; intros y Hy; apply Hy).
+      exact (proj1 (sum_of_fold_ge fc_ops r Hf 0)). }
+    nia.
+Qed.
+
+(* For counts of a real program (totals are the sums, no function owns more locals than exist)
+   that passed the cheap stages, both derived bounds are computed without saturating whenever
+   the caps keep F * (F + 2 L + 2) and (2 B + O) * L below 2^64 — which DEFAULT_CAPS do by a
+   wide margin (see [default_caps_never_saturate]). *)
+Lemma derived_bounds_unsaturated c k :
+  caps_wf k -> counts_wf c -> counts_consistent c ->
+  Forall (fun x => fc_locals x <= n_locals c) (per_fn c) ->
+  (forall m, metric_index m < metric_index MSummary -> trips c k m = false) ->
+  summary_exact (max_functions k) (max_locals k) <= u64_max ->
+  (max_total_blocks k * 2 + max_total_ops k) * max_locals k <= u64_max ->
+  summary_event_bound (n_functions c) (n_locals c) = summary_exact (n_functions c) (n_locals c) /\
+  liveness_event_bound (per_fn c) = liveness_exact (per_fn c).
+Proof.
+  intros Hk Hc (Hops & Hblocks & _ & _) Hloc Hpre HS HL.
+  assert (HtF : trips c k MFunctions = false) by (apply Hpre; cbn; lia).
+  assert (HtL : trips c k MLocals = false) by (apply Hpre; cbn; lia).
+  assert (HtO : trips c k MCfgOps = false) by (apply Hpre; cbn; lia).
+  assert (HtB : trips c k MCfgBlocks = false) by (apply Hpre; cbn; lia).
+  unfold trips in HtF, HtL, HtO, HtB. cbn [observed metric_cap cap_value] in *.
+  apply exceeds_false_iff in HtF. apply exceeds_false_iff in HtL.
+  apply exceeds_false_iff in HtO. apply exceeds_false_iff in HtB.
+  destruct Hc as (Hwf & HL0 & _ & _ & _ & HO0 & HB0 & _).
+  assert (Hnn : Forall fn_nonneg (per_fn c)) by (eapply Forall_impl; [|exact Hwf]; apply fn_wf_nonneg).
+  assert (Hf0 : 0 <= n_functions c) by (unfold n_functions; lia).
+  split.
+  - assert (Hb : n_locals c * 2 + 2 <= u64_max).
+    { pose proof (Hk CLocals) as HkL. cbn [cap_value cap_max] in HkL. unfold u32_max, u64_max in *. lia. }
+    rewrite summary_bound_min by lia. apply Z.min_l.
+    eapply Z.le_trans; [|exact HS]. apply summary_exact_mono; lia.
+  - rewrite liveness_bound_min by assumption. apply Z.min_l.
+    eapply Z.le_trans; [apply (liveness_exact_le _ (n_locals c)); assumption|].
+    rewrite <- Hops, <- Hblocks. eapply Z.le_trans; [|exact HL]. nia.
+Qed.
+
+Lemma default_caps_never_saturate :
+  summary_exact (max_functions default_caps) (max_locals default_caps) <= u64_max /\
+  (max_total_blocks default_caps * 2 + max_total_ops default_caps) * max_locals default_caps <= u64_max.
+Proof. split; vm_compute; discriminate. Qed.
+
+(* ------------------------------------------------------------------------------------ *)
+(** * Two program families in closed form *)
+
+Lemma fold_sum_repeat (f : stmt -> Z) x n : forall a,
+  fold_left (fun a y => a + f y) (repeat x n) a = a + Z.of_nat n * f x.
+Proof.
+  induction n as [|n IH]; intros a; cbn [repeat fold_left]; [lia|]. rewrite IH. lia.
+Qed.
+
+Lemma fold_sum_repeat_fn (f : fn_counts -> Z) x n : forall a,
+  fold_left (fun a y => a + f y) (repeat x n) a = a + Z.of_nat n * f x.
+Proof.
+  induction n as [|n IH]; intros a; cbn [repeat fold_left]; [lia|]. rewrite IH. lia.
+Qed.
+
+Lemma sum_of_repeat (f : fn_counts -> Z) x n : sum_of f (repeat x n) = Z.of_nat n * f x.
+Proof. unfold sum_of. rewrite fold_sum_repeat_fn. lia. Qed.
+
+Lemma count_block_repeat_simple x n : (forall s, cs_has s = true -> count_stmt x s = c_op s) ->
+  forall s, cs_has s = true ->
+  count_block (repeat x n) s = mkC (cs_blocks s) (cs_ops s + Z.of_nat n) true.
+Proof.
+  intros Hx. unfold count_block. induction n as [|n IH]; intros s Hs; cbn [repeat fold_left].
+  - destruct s; cbn in *. subst. f_equal. lia.
+  - rewrite Hx by exact Hs. rewrite IH by exact Hs. cbn. f_equal. lia.
+Qed.
+
+Lemma flat_map_repeat_nil (A B : Type) (f : A -> list B) x n : f x = [] -> flat_map f (repeat x n) = [].
+Proof. intros H. induction n; cbn; [reflexivity|]. rewrite H, IHn. reflexivity. Qed.
+
+Lemma flat_map_repeat_single (A B : Type) (f : A -> list B) x y n :
+  f x = [y] -> flat_map f (repeat x n) = repeat y n.
+Proof. intros H. induction n; cbn; [reflexivity|]. rewrite H, IHn. reflexivity. Qed.
+
+(* n empty functions at top level *)
+Lemma empty_functions_program n :
+  counts_of_program (repeat (SFn 0 []) n)
+  = empty_functions_counts n 2 (Z.of_nat n) 0 0 0.
+Proof.
+  unfold counts_of_program, program_fns, empty_functions_counts.
+  assert (Ed : direct_fns (repeat (SFn 0 []) n) = repeat (mkFn 2 0 0) n).
+  { unfold direct_fns. apply flat_map_repeat_single. reflexivity. }
+  assert (En : flat_map nested_fns (repeat (SFn 0 []) n) = []).
+  { apply flat_map_repeat_nil. reflexivity. }
+  assert (Er : fn_entry 0 (repeat (SFn 0 []) n) = mkFn 2 (Z.of_nat n) 0).
+  { unfold fn_entry, count_body, own_locals_block.
+    rewrite count_block_repeat_simple; [|intros s Hs; destruct s; cbn in *; subst; reflexivity|reflexivity].
+    rewrite fold_sum_repeat. cbn. f_equal; lia. }
+  rewrite Ed, En, Er, app_nil_r. unfold sum_block. rewrite !fold_sum_repeat.
+  rewrite !sum_of_cons, !sum_of_repeat.
+  change (scopes_in (SFn 0 [])) with 2. change (stmts_in (SFn 0 [])) with 1.
+  change (calls_in (SFn 0 [])) with 0. cbn [fc_blocks fc_ops fc_locals].
+  f_equal; lia.
+Qed.
+
+(* n declarations in the top-level block *)
+Lemma declarations_program n :
+  counts_of_program (repeat (SDecl 0) n)
+  = mkCounts [mkFn 2 (Z.of_nat n) (Z.of_nat n)] (Z.of_nat n) 1 (Z.of_nat n) 0 (Z.of_nat n) 2.
+Proof.
+  unfold counts_of_program, program_fns.
+  assert (Ed : direct_fns (repeat (SDecl 0) n) = []).
+  { unfold direct_fns. apply flat_map_repeat_nil. reflexivity. }
+  assert (En : flat_map nested_fns (repeat (SDecl 0) n) = []).
+  { apply flat_map_repeat_nil. reflexivity. }
+  assert (Er : fn_entry 0 (repeat (SDecl 0) n) = mkFn 2 (Z.of_nat n) (Z.of_nat n)).
+  { unfold fn_entry, count_body, own_locals_block.
+    rewrite count_block_repeat_simple; [|intros s Hs; destruct s; cbn in *; subst; reflexivity|reflexivity].
+    rewrite fold_sum_repeat. cbn. f_equal; lia. }
+  rewrite Ed, En, Er. cbn [app]. unfold sum_block. rewrite !fold_sum_repeat.
+  change (scopes_in (SDecl 0)) with 0. change (stmts_in (SDecl 0)) with 1.
+  change (calls_in (SDecl 0)) with 0.
+  unfold sum_of. cbn [fold_left fc_blocks fc_ops fc_locals]. f_equal; lia.
+Qed.
+
+Lemma max_of_cons_repeat (f : fn_counts -> Z) x y n :
+  f y <= f x -> max_of f (x :: repeat y n) = Some (f x).
+Proof.
+  intros H. apply max_of_spec. split.
+  - exists x. split; [left; reflexivity|reflexivity].
+  - intros z [<-|Hz]; [lia|]. apply repeat_spec in Hz. subst z. exact H.
+Qed.
+
+(* what each stage observes for n empty functions (n within u32) *)
+Lemma empty_functions_observed n m : Z.of_nat n + 3 <= u32_max ->
+  observed (empty_functions_counts n 2 (Z.of_nat n) 0 0 0) m =
+  Some (match m with
+        | MFunctions => Z.of_nat n + 1
+        | MLocals => 0
+        | MScopes => 1 + 2 * Z.of_nat n
+        | MStatements => Z.of_nat n
+        | MCfgOps => Z.of_nat n
+        | MOpsInFn => Z.of_nat n
+        | MCfgBlocks => 2 + 2 * Z.of_nat n
+        | MBlocksInFn => 2
+        | MCalls => 0
+        | MSummary => (Z.of_nat n + 1) * (Z.of_nat n + 3)
+        | MLiveness => 0
+        end).
+Proof.
+  intros Hn.
+  assert (EF : n_functions (empty_functions_counts n 2 (Z.of_nat n) 0 0 0) = Z.of_nat n + 1).
+  { unfold n_functions, empty_functions_counts. cbn [per_fn List.length]. rewrite repeat_length. lia. }
+  destruct m; cbn [observed]; try rewrite EF; try (cbn; f_equal; lia).
+  - cbn [per_fn empty_functions_counts]. rewrite (max_of_cons_repeat fc_ops); cbn; [reflexivity|lia].
+  - cbn [per_fn empty_functions_counts]. rewrite (max_of_cons_repeat fc_blocks); cbn; [reflexivity|lia].
+  - cbn [n_locals empty_functions_counts]. f_equal.
+    rewrite summary_bound_min by (unfold u64_max; lia).
+    unfold summary_exact. rewrite Z.min_l; [ring|].
+    assert ((Z.of_nat n + 1) * (Z.of_nat n + 1 + (0 * 2 + 2)) <= u32_max * u32_max) by nia.
+    unfold u32_max, u64_max in *. lia.
+  - cbn [per_fn empty_functions_counts]. f_equal.
+    rewrite liveness_bound_min.
+    + rewrite liveness_exact_no_locals; [reflexivity|].
+      constructor; [reflexivity|]. apply Forall_forall. intros z Hz. apply repeat_spec in Hz. subst. reflexivity.
+    + constructor; [unfold fn_nonneg; cbn; lia|]. apply Forall_forall. intros z Hz.
+      apply repeat_spec in Hz. subst. unfold fn_nonneg. cbn. lia.
+Qed.
+
+(* The verdict for a program of n empty functions, for any caps: below the summary threshold
+   and every cheap cap nothing trips; at or above the threshold (but within the cheap caps)
+   "summary events" is reported although max_functions is far away. *)
+Lemma empty_functions_verdict k n :
+  caps_wf k -> Z.of_nat n + 3 <= u32_max ->
+  let c := empty_functions_counts n 2 (Z.of_nat n) 0 0 0 in
+  let N := Z.of_nat n in
+  (N + 1 <= max_functions k -> 1 + 2 * N <= max_scopes k -> N <= max_statements k ->
+   N <= max_total_ops k -> N <= max_ops_per_function k -> 2 + 2 * N <= max_total_blocks k ->
+   2 <= max_blocks_per_function k ->
+   (N + 1 < summary_fn_threshold (max_summary_events k) 0 -> first_exceeded_limit c k = None) /\
+   (summary_fn_threshold (max_summary_events k) 0 <= N + 1 ->
+    first_exceeded_limit c k = Some (mkLimit MSummary ((N + 1) * (N + 3)) (max_summary_events k)))) /\
+  (max_functions k < N + 1 ->
+   first_exceeded_limit c k = Some (mkLimit MFunctions (N + 1) (max_functions k))).
+Proof.
+  intros Hk Hn c N. subst c N.
+  assert (Hobs := fun m => empty_functions_observed n m Hn).
+  assert (Hthr : forall cap, 0 <= cap ->
+            (cap < (Z.of_nat n + 1) * (Z.of_nat n + 3) <-> summary_fn_threshold cap 0 <= Z.of_nat n + 1)).
+  { intros cap Hcap. rewrite <- (summary_threshold_exact cap 0 (Z.of_nat n + 1)) by lia.
+    unfold summary_exact. replace ((Z.of_nat n + 1) * (Z.of_nat n + 1 + (0 * 2 + 2))) with ((Z.of_nat n + 1) * (Z.of_nat n + 3)) by ring.
+    reflexivity. }
+  pose proof (Hk CSummary) as HkS. pose proof (Hk CLocals) as HkL. pose proof (Hk CCalls) as HkC.
+  pose proof (Hk CLiveness) as HkV. cbn [cap_value cap_max] in HkS, HkL, HkC, HkV.
+  split.
+  - intros H1 H2 H3 H4 H5 H6 H7. split.
+    + intros Hlt. apply no_limit_all_within. intros m o Ho. rewrite Hobs in Ho. inversion Ho; subst o.
+      destruct m; cbn [metric_cap cap_value]; try lia.
+      destruct (Z.le_gt_cases ((Z.of_nat n + 1) * (Z.of_nat n + 3)) (max_summary_events k)) as [|Hgt]; [assumption|].
+      apply Hthr in Hgt; lia.
+    + intros Hge. apply first_limit_order_lemma. cbn [l_metric l_observed l_limit].
+      split; [|split; [|split]].
+      * apply trips_iff. eexists. split; [apply Hobs|]. cbn [metric_cap cap_value]. apply Hthr; lia.
+      * intros m Hm. unfold trips. rewrite Hobs. apply exceeds_false_iff.
+        destruct m; cbn [metric_cap cap_value metric_index] in *; lia.
+      * apply Hobs.
+      * reflexivity.
+  - intros Hgt. apply first_limit_order_lemma. cbn [l_metric l_observed l_limit].
+    split; [|split; [|split]].
+    + apply trips_iff. eexists. split; [apply Hobs|]. cbn [metric_cap cap_value]. lia.
+    + intros m Hm. destruct m; cbn [metric_index] in Hm; lia.
+    + apply Hobs.
+    + reflexivity.
+Qed.
